@@ -657,6 +657,113 @@ func manyRecordsUnit(k int) harness.Unit {
 	}}
 }
 
+// tlsSuiteMatrixUnit: every standard TLS suite the library implements, pinned on both sides, crossed
+// with the version caps of client and server (1.0 / 1.1 / 1.2 each), with and without client
+// authentication, for three pairings: library with library, crypto/tls client with library server,
+// library client with crypto/tls server. The model: the version is the smaller cap; a suite that is
+// defined for TLS 1.2 only (GCM, SHA-256/384 MACs, ChaCha20) must make BOTH sides fail below 1.2;
+// otherwise both complete with exactly that suite and version and carry data.
+func tlsSuiteMatrixUnit(part, parts int) harness.Unit {
+	type su struct {
+		id     uint16
+		rsa    bool // needs an RSA certificate (else ECDSA)
+		only12 bool
+	}
+	all := []su{
+		{0x0005, true, false}, {0x000a, true, false}, {0x002f, true, false}, {0x0035, true, false}, {0x003c, true, true}, {0x009c, true, true}, {0x009d, true, true},
+		{0xc007, false, false}, {0xc009, false, false}, {0xc00a, false, false}, {0xc011, true, false}, {0xc012, true, false}, {0xc013, true, false}, {0xc014, true, false},
+		{0xc023, false, true}, {0xc027, true, true}, {0xc02f, true, true}, {0xc02b, false, true}, {0xc030, true, true}, {0xc02c, false, true}, {0xcca8, true, true}, {0xcca9, false, true},
+	}
+	return harness.Unit{Name: fmt.Sprintf("tls-suite-matrix/part%d", part), Run: func(c *harness.Ctx) {
+		p := tlsk.Get()
+		n := 0
+		for _, s := range all {
+			for _, sMax := range []uint16{0x0301, 0x0302, 0x0303} {
+				for _, cMax := range []uint16{0x0301, 0x0302, 0x0303} {
+					for _, auth := range []bool{false, true} {
+						for pairing := 0; pairing < 3; pairing++ {
+							n++
+							if n%parts != part {
+								continue
+							}
+							cert := p.ECDSA
+							if s.rsa {
+								cert = p.RSA
+							}
+							v := sMax
+							if cMax < v {
+								v = cMax
+							}
+							// 0xc013 and 0xc027 are exported constants ("implemented now or in the past") without
+							// an entry in the library's suite table: pinning them leaves no usable suite
+							mustFail := (s.only12 && v < 0x0303) || s.id == 0xc013 || s.id == 0xc027
+							app := [2]tlsk.App{{Writes: [][]byte{[]byte("ping")}, Expect: 4}, {Writes: [][]byte{[]byte("pong")}, Expect: 4}}
+							var cv, sv tlsk.View
+							var cs, ss func(*wire.End) error
+							if pairing == 1 {
+								cc := &stdtls.Config{RootCAs: p.StdRoots, ServerName: tlsk.ServerName, Time: tlsk.FixedTime, MinVersion: 0x0301, MaxVersion: cMax, CipherSuites: []uint16{s.id}}
+								if auth {
+									cc.Certificates = []stdtls.Certificate{stdCert(p.StdClient)}
+								}
+								cs = tlsk.StdEnd(cc, true, app[0], &cv)
+							} else {
+								cc := &gmtls.Config{RootCAs: p.StdRootsG, ServerName: tlsk.ServerName, Time: tlsk.FixedTime, Rand: wire.NewRand(12), MinVersion: 0x0301, MaxVersion: cMax, CipherSuites: []uint16{s.id}}
+								if auth {
+									cc.Certificates = []gmtls.Certificate{p.StdClient}
+								}
+								cs = tlsk.GMEnd(cc, true, app[0], &cv, nil)
+							}
+							if pairing == 2 {
+								sc := &stdtls.Config{Certificates: []stdtls.Certificate{stdCert(cert)}, Time: tlsk.FixedTime, MinVersion: 0x0301, MaxVersion: sMax, CipherSuites: []uint16{s.id}}
+								if auth {
+									sc.ClientAuth, sc.ClientCAs = stdtls.RequireAndVerifyClientCert, p.StdRoots
+								}
+								ss = tlsk.StdEnd(sc, false, app[1], &sv)
+							} else {
+								sc := &gmtls.Config{Certificates: []gmtls.Certificate{cert}, Time: tlsk.FixedTime, Rand: wire.NewRand(13), MinVersion: 0x0301, MaxVersion: sMax, CipherSuites: []uint16{s.id}}
+								if auth {
+									sc.ClientAuth, sc.ClientCAs = gmtls.RequireAndVerifyClientCert, p.StdRootsG
+								}
+								ss = tlsk.GMEnd(sc, false, app[1], &sv, nil)
+							}
+							o := tlsk.Run(cs, ss, &cv, &sv, nil)
+							tag := fmt.Sprintf("suite %04x pinned on both sides, server max %04x, client max %04x, client-auth=%v, pairing %s", s.id, sMax, cMax, auth, []string{"library/library", "crypto-tls client/library server", "library client/crypto-tls server"}[pairing])
+							c.Add("executions", 1)
+							c.Add("transitions", 1)
+							c.DistinctS("states", tag)
+							c.DistinctS("outcomes", fmt.Sprintf("%v/%v/%v", mustFail, o.C.Complete, o.S.Complete))
+							if c.WantSample() {
+								c.Sample(tag)
+							}
+							key := fmt.Sprintf("%04x:v=%04x:auth=%v:pairing=%d", s.id, v, auth, pairing)
+							if o.C.Panic != nil || o.S.Panic != nil || len(o.Stuck) > 0 {
+								c.Violate("tls-suite-matrix:crash-or-hang:"+key, fmt.Sprintf("[%s] %s\n%s", tag, o.Describe(), clip(o.C.Stack+o.S.Stack, 1200)), nil, tag)
+								continue
+							}
+							if mustFail {
+								if o.C.Complete || o.S.Complete {
+									c.Violate("tls-suite-matrix:completes-with-a-1.2-only-suite-below-1.2:"+key, fmt.Sprintf("[%s] the only mutual suite is not defined for the negotiated version, both sides must fail: %s", tag, o.Describe()), nil, tag)
+								}
+								continue
+							}
+							if !o.C.Complete || !o.S.Complete || string(o.S.Read) != "ping" || string(o.C.Read) != "pong" {
+								c.Violate("tls-suite-matrix:fails:"+key, fmt.Sprintf("[%s] a correctly configured pair must complete and carry data: %s", tag, o.Describe()), nil, tag)
+								continue
+							}
+							if o.C.Suite != s.id || o.S.Suite != s.id || o.C.Version != v || o.S.Version != v {
+								c.Violate("tls-suite-matrix:parameters:"+key, fmt.Sprintf("[%s] negotiated %04x/%04x (client) %04x/%04x (server), want %04x/%04x", tag, o.C.Version, o.C.Suite, o.S.Version, o.S.Suite, v, s.id), nil, tag)
+							}
+							if auth && len(o.S.PeerCerts) == 0 {
+								c.Violate("tls-suite-matrix:client-certificate-lost:"+key, fmt.Sprintf("[%s]", tag), nil, tag)
+							}
+						}
+					}
+				}
+			}
+		}
+	}}
+}
+
 // seedSweepUnit: value-dependent steps of the key exchange (a shared ECDH coordinate or an SM2
 // ciphertext coordinate with a leading zero byte occurs about once in 256 / 128 handshakes) are
 // reached by running the SAME configuration under many deterministic random streams: seeds
@@ -742,7 +849,7 @@ func (s *seedStream) Read(p []byte) (int, error) {
 var Prop = &harness.Prop{
 	ID:          "C06",
 	Level:       "model_checking",
-	Rule:        "configuration space enumerated as a product: server mode {GMSSL-only, auto-switch, TLS-only, Go crypto/tls server} x client {library GMSSL client, library TLS client, Go crypto/tls client} x client/server suite lists (9 each incl. ECDHE-only and mixed orders) x PreferServerCipherSuites x 5 ClientAuth policies x client certificate {absent, trusted, untrusted} x certificates static / callbacks x tickets on/off x TLS versions {default, 1.0, 1.1, 1.2} x {ECDSA, RSA} server certificate; each configuration runs real endpoints over the deterministic wire; a 60-line negotiation model predicts complete/must-fail, version and suite; both ends' ConnectionState, exported keying material, peer certificates and delivered bytes are compared; every captured GMSSL session is decoded by an independent GM/T 0024 record/PRF/Finished implementation (master secret re-derived from the pre-master secret decrypted with the reference SM2). Active reference peer: the library in each role against gmref (an independent endpoint with a GM/T 0024 profile and a TLS 1.2 RSA-key-exchange profile) for both suites of each profile x GMSSL-only/auto-switch x 5 ClientAuth policies x client certificate present/absent x the peer's handshake messages cut into records of 1, 7, 100 bytes or unfragmented; both complete exactly when the policy allows, gmref verifies the library's ServerKeyExchange / CertificateVerify signatures and Finished, 3 KB / 70 KB payloads arrive intact. Payload sizes 2^k-72..2^k+8 (k = 9..14) in each direction between the library and the reference peer. Seed sweeps: the same configuration under 1536 (thorough 6144) deterministic random streams for TLS 1.2 ECDHE P-256 between two library endpoints and a quarter of that against crypto/tls in each role and for GMSSL against the reference peer in each role, so that value-dependent steps of the key exchange (coordinates with leading zero bytes, about 1 in 256) occur several times. Long connections: 600 small writes in each direction (more than 512 protected records per direction) for both GMSSL suites (independently decoded) and for TLS 1.2 / TLS 1.0 against crypto/tls in each role. Data phase: all write sequences up to the depth over 8 sizes x 2 directions with reader buffers {1,7,4096}. states = distinct configurations; transitions = sessions.",
+	Rule:        "configuration space enumerated as a product: server mode {GMSSL-only, auto-switch, TLS-only, Go crypto/tls server} x client {library GMSSL client, library TLS client, Go crypto/tls client} x client/server suite lists (9 each incl. ECDHE-only and mixed orders) x PreferServerCipherSuites x 5 ClientAuth policies x client certificate {absent, trusted, untrusted} x certificates static / callbacks x tickets on/off x TLS versions {default, 1.0, 1.1, 1.2} x {ECDSA, RSA} server certificate; each configuration runs real endpoints over the deterministic wire; a 60-line negotiation model predicts complete/must-fail, version and suite; both ends' ConnectionState, exported keying material, peer certificates and delivered bytes are compared; every captured GMSSL session is decoded by an independent GM/T 0024 record/PRF/Finished implementation (master secret re-derived from the pre-master secret decrypted with the reference SM2). Active reference peer: the library in each role against gmref (an independent endpoint with a GM/T 0024 profile and a TLS 1.2 RSA-key-exchange profile) for both suites of each profile x GMSSL-only/auto-switch x 5 ClientAuth policies x client certificate present/absent x the peer's handshake messages cut into records of 1, 7, 100 bytes or unfragmented; both complete exactly when the policy allows, gmref verifies the library's ServerKeyExchange / CertificateVerify signatures and Finished, 3 KB / 70 KB payloads arrive intact. Payload sizes 2^k-72..2^k+8 (k = 9..14) in each direction between the library and the reference peer. TLS suite matrix: each of the 22 standard suite constants (20 implemented; 0xc013 and 0xc027 have no table entry and must simply fail) pinned on both sides x server version cap x client version cap (1.0/1.1/1.2) x client authentication x {library/library, crypto/tls client, crypto/tls server}: 1.2-only suites must fail on both sides below 1.2, everything else completes with exactly that suite and version. Seed sweeps: the same configuration under 1536 (thorough 6144) deterministic random streams for TLS 1.2 ECDHE P-256 between two library endpoints and a quarter of that against crypto/tls in each role and for GMSSL against the reference peer in each role, so that value-dependent steps of the key exchange (coordinates with leading zero bytes, about 1 in 256) occur several times. Long connections: 600 small writes in each direction (more than 512 protected records per direction) for both GMSSL suites (independently decoded) and for TLS 1.2 / TLS 1.0 against crypto/tls in each role. Data phase: all write sequences up to the depth over 8 sizes x 2 directions with reader buffers {1,7,4096}. states = distinct configurations; transitions = sessions.",
 	Assumptions: []string{"Go's crypto/tls is the independent implementation for TLS 1.0-1.2 (both roles)", "gmrec (independent decoder) is built on refsm2/3/4; it covers the two ECC suites", "the ECDHE-SM2 suites are not implemented by the library: the model never predicts them as an outcome"},
 	Bounds: func(tier string) string {
 		if tier == "thorough" {
@@ -769,6 +876,9 @@ var Prop = &harness.Prop{
 		}
 		for k := 0; k < 6; k++ {
 			u = append(u, manyRecordsUnit(k))
+		}
+		for p := 0; p < 16; p++ {
+			u = append(u, tlsSuiteMatrixUnit(p, 16))
 		}
 		nseed, step := 1536, 96
 		if full {
